@@ -169,14 +169,11 @@ theorem c01_quiescence_reachable (m : κ → α → Bool) (o : Opts) (q : κ) (s
   have := hall l hl
   rw [he] at this; simp [Label.canon] at this
 
-/-- Session-level identity of candidates (used by C10 / C15 / C05): in every reachable state with no
-    clear pending, every listed entry `(i, x)` is the item at position `i` of the current pool — the
-    matcher's `num_taken + index` is the input position, whichever run and batch reported it. -/
-theorem session_item_index (m : κ → α → Bool) (o : Opts) (q : κ) (src : List α) (ls : List (Label α κ)) :
-    let s := runL m (initWith o q src) ls
-    s.clear = .dont → ∀ e ∈ s.list, s.pool.pool[e.1]? = some e.2 ∧ m s.q e.2 = true := by
-  intro s hcl e he
-  have hinv : Inv m s := c01_invariant m o q src ls
+/-- the state-level content: where the invariant holds and no clear is pending, every listed entry `(i, x)` is the item at
+    position `i` of the pool and satisfies the current query -/
+theorem item_index_of_inv (m : κ → α → Bool) (s : St α κ) (hinv : Inv m s) (hcl : s.clear = .dont) :
+    ∀ e ∈ s.list, s.pool.pool[e.1]? = some e.2 ∧ m s.q e.2 = true := by
+  intro e he
   have hacc := hinv.acc
   rw [← eff_dont s hcl] at he
   -- in every phase the effective list is a permutation of hits over a prefix of the pool
@@ -200,6 +197,16 @@ theorem session_item_index (m : κ → α → Bool) (o : Opts) (q : κ) (src : L
   split at h2
   · exact h2
   · cases h2
+
+
+/-- Session-level identity of candidates (used by C10 / C15 / C05): in every reachable state with no
+    clear pending, every listed entry `(i, x)` is the item at position `i` of the current pool — the
+    matcher's `num_taken + index` is the input position, whichever run and batch reported it. -/
+theorem session_item_index (m : κ → α → Bool) (o : Opts) (q : κ) (src : List α) (ls : List (Label α κ)) :
+    let s := runL m (initWith o q src) ls
+    s.clear = .dont → ∀ e ∈ s.list, s.pool.pool[e.1]? = some e.2 ∧ m s.q e.2 = true := by
+  intro s hcl
+  exact item_index_of_inv m s (c01_invariant m o q src ls) hcl
 
 
 /-! ### the premise of the atomic-handler reduction, proved on the model
